@@ -384,8 +384,8 @@ Lemma dir_unpubcomp st s c :
 Proof.
   simpl. unfold dir_unregister_computation, stale_unpub, gc, gsc.
   destruct (zmemk c (g_comps (n_dir st))) eqn:E; [|auto].
-  pose proof (unreg_comp_O (n_disc st) c None true) as HO.
-  destruct (d_unregister_computation (n_disc st) c None true) as [[[d1 o1] e1] x1].
+  pose proof (unreg_comp_O (n_disc st) c None false) as HO.
+  destruct (d_unregister_computation (n_disc st) c None false) as [[[d1 o1] e1] x1].
   simpl in *. split; auto. left. repeat split; auto. exists o1. auto.
 Qed.
 
